@@ -102,7 +102,13 @@ def make_case(rng, special=None, kind=None):
     w = rng.uniform(1.0, 2.0) * hmax
     if R + 4 * w >= nr * dr or 2 * (R + 6 * w) >= nz * dz:
         return grid, []
-    z = rng.uniform(R + 6 * w, nz * dz - R - 6 * w)  # away from the z boundary (known finding D12 for periodic z)
+    if kind == "cylp":
+        # periodic in z: the droplet may sit anywhere, also across the boundary (rendered correctly since the repair of D12)
+        if 2 * (R + 6 * w) >= nz * dz:
+            return grid, []
+        z = rng.uniform(0, nz * dz)
+    else:
+        z = rng.uniform(R + 6 * w, nz * dz - R - 6 * w)
     return grid, [DiffuseDroplet(np.array([0.0, 0.0, z]), R, w)]
 
 
@@ -272,6 +278,14 @@ def periodic_cylinder_boundary(ck: Check, n: int):
         rr, zz = grid.cell_coords[..., 0], grid.cell_coords[..., 1]
         dzw = (zz - zc + L / 2) % L - L / 2
         data = 0.5 + 0.5 * np.tanh((R - np.sqrt(rr**2 + dzw**2)) / w)
+        # (since the repair of D12 the library renders this picture itself)
+        from droplets.droplets import DiffuseDroplet as _DD
+
+        lib = _DD(np.array([0.0, 0.0, zc]), R, w).get_phase_field(grid).data
+        if float(np.max(np.abs(lib - data))) > 1e-12:
+            ck.fail(f"the library's rendering of a droplet centred at z={zc} on the periodic cylinder differs from the periodic picture by {float(np.max(np.abs(lib - data))):.3g}",
+                    {"grid": "CylindricalSymGrid", "dim": 3, "check": "render_periodic_cylinder"}, {"grid": repr(grid), "droplets": [[0.0, 0.0, zc, R, w]]})
+        data = lib
         case = {"grid": repr(grid), "droplets": [[0.0, 0.0, zc, R, w]], "kind": "periodic-cylinder-boundary"}
         sig = {"grid": "CylindricalSymGrid", "dim": 3, "levels": "default", "threshold": "number", "periodic_z_boundary": True}
         ck.case(("cylb", nr, nz, dr, dz, z0, zc, R, w))
@@ -394,7 +408,7 @@ def run(ck: Check):
                       "The Lean part (Props/C05.lean, counted under obligations) proves the logic recovery depends on over regenerated definitions: the truth is a zero of the "
                       "residual for supplied and fitted levels, zero residual pins down the profile, the solver's start is feasible (C04) and within half a cell (C01).")
     ck.assumptions = ["convergence of scipy.optimize.least_squares from a half-cell-accurate start is observed, not proved",
-                      "library-rendered cylindrical droplets are kept away from a periodic z boundary (known finding D12 of C03); droplets ON the boundary are rendered by the harness with the minimal-image convention"]
+                      "periodic cylinders: droplets anywhere along z, also across and exactly on the periodic boundary (rendered by the library since the repair of D12, compared with the minimal-image picture)"]
     ck.extra_cov["gen_keys"] = ["residual_fitted_levels", "residual_fixed_levels", "scale_field", "diffuse_smooth"]
     ck.lean = lean_stage("C05", leanchecker=not ck.quick)
     try:
